@@ -133,6 +133,7 @@ def work(item):
             continue
         r = R.decide_pair(PROP, title, expand_chain(chain_a, len(case["ins"])), expand_chain(chain_b, len(case["ins"])), post_a, arrs, harness.coord_assumptions(case, arrs0), timeout_ms, kinds=kinds, tol_ops=case["op"] in TOL_OPS)
         r["transform"] = name
+        r["all_unit"] = all(l.size == 1 for e in case["ins"] for l, _ in leaves(expand(e)))
         r["op"] = case["op"]
         r["desc"] = case["desc"]
         r["desc_b"] = chain_b[0][1]
@@ -219,6 +220,9 @@ def main():
                 err = str(r.get("error", ""))
                 # mechanism fields (known_findings.json): one side is rejected by einx.id's positional pairing of the
                 # blocks of an expression with two concatenated axes
+                # same mechanism, other symptom: when every axis has length 1 the compatibility test of the block pairing is skipped
+                # (it ignores unit axes), so the positionally paired blocks are placed silently
+                sig["positional_block_pairing_unit_axes_wrong_placement"] = bool(r["op"] == "id" and r["transform"] in ("permute-input", "permute-output") and two_concats(r["desc"]) and r.get("all_unit") and "SemanticError" not in err)
                 sig["one_side_rejected_by_positional_block_pairing"] = bool(
                     r["op"] == "id" and r["transform"] in ("permute-input", "permute-output") and "SemanticError" in err and "after decomposition of axis concatenations" in err and two_concats(r["desc"])
                 )
